@@ -20,7 +20,7 @@ def config_step(n, inst, byz, cfail=()):
 
 
 def random_schedules(seed, salt, combos, per_combo, steps, *, inputs_mode="two", ptimeout=4, pbyz=12, pdup=5, ploss=5,
-                     crashes=0, cfail_mode=False):
+                     crashes=0, cfail_mode=False, plag=0):
     """One 'Random' schedule per (combo, k): the Go executor's seeded online scheduler + adversary does the rest."""
     r = vlib.rng(seed, "qbft/" + salt)
     out = []
@@ -45,7 +45,7 @@ def random_schedules(seed, salt, combos, per_combo, steps, *, inputs_mode="two",
             out.append([config_step(n, inst, byz, cfail),
                         {"ev": "Random", "steps": steps, "seed": r.randrange(1 << 30), "inputs": inputs, "vals": [1, 2],
                          "ptimeout": ptimeout, "pbyz": pbyz if byz else 0, "pdup": pdup, "ploss": ploss,
-                         "crashes": crashes}])
+                         "crashes": crashes, "plag": plag}])
     return out
 
 
